@@ -1,7 +1,7 @@
 (* T1 obligations for C08: side conditions of the cursor theorems, re-checked on the facts
    regenerated from /repo's source on every run. *)
 From Coq Require Import ZArith List Bool.
-From Verif Require Import Extracted.Extracted.
+From Verif Require Import Extracted.Extracted Cursor.MachCorr.
 Import ListNotations.
 Local Open Scope Z_scope.
 
@@ -15,4 +15,8 @@ Proof. vm_compute. reflexivity. Qed.
 (* the slice disjunction is used up to this many children, the heap disjunction above; both
    machines are proved, the harness crosses the threshold *)
 Lemma ob_heap_takeover : XCursor.disjunction_heap_takeover = 10.
+Proof. vm_compute. reflexivity. Qed.
+
+(* the correspondence check runs the Boolean machine with the guard flag read off the source *)
+Lemma ob_corr_guard : MachCorr.should_guard = XCursor.boolean_should_guard.
 Proof. vm_compute. reflexivity. Qed.
